@@ -18,7 +18,7 @@ func e2Order(fx *Fixture, work string, rep *Report, depth, dev int) {
 	if err != nil {
 		fatalf("order mode: %v", err)
 	}
-	overlay["/repo/internal/registry/zz_verif_regbfs_test.go"] = e2TestFile
+	overlay[repoRoot+"/internal/registry/zz_verif_regbfs_test.go"] = e2TestFile
 	rep.Set("map_range_sites_instrumented", sites)
 	var findings []e2OrderFinding
 	siteHits := map[string]int{}
